@@ -9,10 +9,10 @@ CLAUSE_PROP = {"ShouldReject": "C31", "ShouldAccept": "C31", "RejectedFired": "C
                "ThreadAlive": "C12", "OtherStopped": "C12", "FabricStopped": "C12", "DispatchAfterStop": "C12",
                "Hang": "C12", "NoProgress": "C12", "Error": "C10", "Harness": "C10"}
 PROFILE = {
-  "C10": dict(cancel=0.0, stop=0.0, tcaps=(50,), nsrc=(1, 4)),
-  "C11": dict(cancel=0.9, stop=0.0, tcaps=(50,), nsrc=(2, 4)),
-  "C12": dict(cancel=0.2, stop=1.0, tcaps=(50,), nsrc=(1, 3)),
-  "C31": dict(cancel=0.3, stop=0.0, tcaps=(1, 2, 3), nsrc=(3, 6)),
+  "C10": dict(cancel=0.0, stop=0.0, tcaps=(50,), nsrc=(1, 4), stall=0.5),
+  "C11": dict(cancel=0.9, stop=0.0, tcaps=(50,), nsrc=(2, 4), stall=0.25),
+  "C12": dict(cancel=0.2, stop=1.0, tcaps=(50,), nsrc=(1, 3), stall=0.25),
+  "C31": dict(cancel=0.3, stop=0.0, tcaps=(1, 2, 3), nsrc=(3, 6), stall=0.2),
 }
 
 
@@ -59,6 +59,10 @@ def _work(args):
     cfg = gen(rng, PROFILE[prop])
     pol = dsched.RandomPolicy(rng, stick=rng.choice([0.0, 0.5, 0.8])) if tid % 2 else dsched.PCTPolicy(rng, 3, 150)
     pol.time_limit = H
+    if rng.random() < PROFILE[prop]["stall"]:
+      # slow threads: a timer, an active object or the driver is held back for 1-3 time units up to 3 times; the clock goes on
+      pol = dsched.StallPolicy(pol, rng, p=rng.choice([0.02, 0.05, 0.15]), durations=(1, 2, 3, 4), max_stalls=rng.randint(1, 3),
+                               only=rng.choice([("tm",), ("tm", "ao_"), None]))
     fs = dsched.FairSuffix(pol, 2500, time_limit=H)
     r = sysdrive.run_one(cfg, fs, 5000)
     r["cfg"] = cfg
@@ -85,7 +89,9 @@ def check(prop):
     run = common.Run(prop, tier, "model_checking")
     if prop in ("C11", "C12"):
       model_check_timers(run, tier)
-    run.assumptions += ASSUME_B + ["virtual integer time with maximal progress (time advances only when no thread can run); horizon %d" % H,
+    run.assumptions += ASSUME_B + ["virtual integer time; in most executions time advances only when no thread can run (maximal progress), in the others up to three "
+                                   "injected delays of 1-4 time units hold a runnable thread back while the clock goes on (a slow thread): a post may then be "
+                                   "late by at most the delays injected so far, never early; horizon %d" % H,
                                    "cancel/stop calls come from one driver thread (or from the object's own handler)"]
     n = 1200 if tier == "quick" else 20000
     chunk = max(1, (n + 63) // 64)
@@ -120,6 +126,7 @@ def check(prop):
           others[p] = others.get(p, 0) + 1
     run.add(traces_validated_against_impl=len(results), evaluations=len(results), states=t.distinct, transitions=t.generated,
             distinct_nontrivial=len({json.dumps([r["cfg"], r["schedule"]]) for _, r in results}), timer_posts_validated=fires,
+            executions_with_slow_threads=sum(1 for _, r in results if r.get("stalls")),
             events_validated=sum(len(r["ev"]) for _, r in results))
     if others:
       run.add(rejections_attributed_to_other_properties=others)
